@@ -617,7 +617,22 @@ def hi_render(case):
     out = ['(orders run: %s; the first %d cases of an order are listed by sub.suite)' % (case['orders'], case['split'])]
     for c in case['cases']:
         out.append('==> %s.case\n%s' % (c['id'], hist.render_case(c)))
+    for name, text in sorted((case.get('shared') or {}).items()):
+        out.append('==> %s\n%s' % (name, text))
     return '\n'.join(out)
+
+
+_SECRET_LINE = re.compile(r'^([A-Za-z_][A-Za-z0-9_]*(?:KEY|TOKEN|SECRET|PASSWORD|CREDENTIAL)[A-Za-z0-9_]*)=(.+)$',
+                          re.M | re.I)
+
+
+def _mask_secrets(text):
+    """`env | sort` of an observer prints the environment this check was started in: values of variables that look
+    like credentials are replaced by a digest (a difference between two runs still shows) so that a replay file never
+    carries them"""
+    import hashlib
+    return _SECRET_LINE.sub(lambda m: '%s=<masked:%s>' % (m.group(1),
+                                                          hashlib.sha1(m.group(2).encode()).hexdigest()[:8]), text)
 
 
 def _hi_collect(ws, run, ids):
@@ -643,7 +658,7 @@ def _hi_collect(ws, run, ids):
                 d.pop('pid', None)
                 recs.append(_json.dumps(d, sort_keys=True))
             text = '\n'.join(recs)
-        res[cid][fn] = run.norm(text)
+        res[cid][fn] = _mask_secrets(run.norm(text))
     return res
 
 
@@ -716,6 +731,9 @@ def _check_histories(case) -> Verdict:
         os.makedirs(os.path.join(ws.home, 'hd'))
         for c in cases:
             ws.write(c['id'] + '.case', hist.render_case(c))
+        for name, text in (case.get('shared') or {}).items():
+            ws.write(name, text)
+            labels.append('shared-file:%d-phases' % (1 + text.count('\n[')))
         ref = {}
         for c in cases:
             ws.probe_cfg(c['id'] + '.py', exit=c['act']['code'], stdout='out-of-%s\n' % c['id'])
